@@ -40,10 +40,13 @@ Windows(rs) ==
   LET lo == rs[1].start  hi == rs[Len(rs)].start + Len(rs[Len(rs)].data) \div rs[Len(rs)].gran - 1
   IN {<<-1, -1>>} \cup (IF hi - lo >= 2 THEN {<<lo + 1, hi - 1>>} ELSE {}) \cup (IF Full THEN {<<-1, hi - 1>>} ELSE {})
 
+\* TLC configuration files cannot hold negative numbers: the backward relocation is added here
+RelocSet == Relocs \cup (IF Full THEN {-1} ELSE {})
 Common(f, rs) ==
-  {[BaseO EXCEPT !.fmt = ff, !.l = l, !.rel = a, !.reloc = rl, !.rstart = w[1], !.rstop = w[2], !.e = e] :
-     ff \in (IF Full THEN {f, "DEFAULT"} ELSE {f}) \ (IF f \in {"TEK", "C"} THEN {"DEFAULT"} ELSE {}),
-     l \in LineLens, a \in BOOLEAN, rl \in Relocs, w \in Windows(rs), e \in {-1, 4660}}
+  {[BaseO EXCEPT !.fmt = f, !.l = l, !.rel = a, !.reloc = rl, !.rstart = w[1], !.rstop = w[2], !.e = e] :
+     l \in LineLens, a \in BOOLEAN, rl \in RelocSet, w \in Windows(rs), e \in {-1, 4660}}
+  \* no -F: the format follows from the processor family of the records (Tek and C have no family)
+  \cup (IF Full /\ f \notin {"TEK", "C"} THEN {[BaseO EXCEPT !.l = l, !.e = e] : l \in LineLens, e \in {-1, 4660}} ELSE {})
 
 PerFmt(f, o, rs) ==
   CASE f = "MOTO" -> IF Full THEN {[o EXCEPT !.M = M, !.rec5 = r5, !.sep = sp] : M \in 1..3, r5 \in BOOLEAN, sp \in BOOLEAN}
@@ -60,7 +63,7 @@ CaseSpace ==
                 : rs \in RecSets(f)} : f \in Fmts}
 
 \* cases with a definite outcome whose written addresses do not wrap below 0
-Admissible(cc) == Definite(cc) /\ TheFmt(cc) \in Fmts /\ ~AutoFails(cc, Devs) /\ \A p \in Selected(cc) : p[1] >= 0 /\ p[1] < BigAddr
+Admissible(cc) == Definite(cc) /\ TheFmt(cc) \in Fmts /\ ~AutoFails(cc, Devs) /\ \A kk \in Live(cc) : KeyLo(cc, kk) >= 0 /\ KeyHi(cc, kk) < BigAddr
 
 NoG == [el |-> 0]
 Init == /\ c \in {cc \in CaseSpace : Admissible(cc)}
@@ -89,6 +92,9 @@ Fmt == TheFmt(c)
 InvLinesValid == \A i \in 1..Len(st.out) : LineValid(Fmt, st.out[i], c.o, pc = "done" /\ i = Len(st.out))
 \* finished text: structure (terminator, counts, entry) right and Decode(Emit(x)) = Selected(x)
 InvVerdict == pc = "done" => Verdict(c, st.out).ok
+\* the pointwise comparison used by Verdict is the set equality of the property statement
+InvDecodeEquiv == pc = "done" /\ Representable(c, Fmt) =>
+                    (DecodeMatches(c, Runs(Fmt, st.out, MulOf(c, Fmt))) <=> Decode(Fmt, st.out, MulOf(c, Fmt)) = Selected(c))
 \* the action-by-action machine and the functional composition Emit agree
 InvEmit == pc = "done" => st.out = Emit(c, Devs)
 \* no line carries more data than -l allows (as the code rounds it) and no Intel line leaves its 64K bank / segment
